@@ -314,3 +314,15 @@ func MapOrder[K comparable, V any](m map[K]V, site string) []K {
 	sortKeys(keys)
 	return keys
 }
+
+// ZeroVal / ZeroKey return the zero value of a map's element / key type (used by the
+// rewriter to declare the shared loop variables of a range-over-map under go < 1.22).
+func ZeroVal[K comparable, V any](m map[K]V) V {
+	var z V
+	return z
+}
+
+func ZeroKey[K comparable, V any](m map[K]V) K {
+	var z K
+	return z
+}
